@@ -1498,7 +1498,7 @@ def push_in(a):
         kind, affs = TERM_INFO[k]
         return minmax_term(kind, [x + r for x in affs])
     kind, lits, comps, dflt = FOLD_INFO[k]
-    return fold_term(kind, [x + r for x in lits], [(P, b + r) for P, b in comps],
+    return fold_term(kind, [x + r for x in lits], [(c[0], c[1] + r) + tuple(c[2:]) for c in comps],
                      None if dflt is None else dflt + r)
 
 
@@ -1508,12 +1508,32 @@ def fold_term(kind, lits, comps, dflt):
     lits = list({repr(x): x for x in lits}.values())
     if lits:
         dflt = None          # never empty
+    # a filter that only drops elements which cannot win is no filter:
+    #   max{L; over P if body > c: body} == max{L; over P: body}   when c <= L  (min: mirrored)
+    norm = []
+    for c in comps:
+        P, body = c[0], c[1]
+        filt = list(c[2]) if len(c) > 2 else []
+        keep = []
+        for a, strict in filt:
+            d = a - body if kind == 'max' else a + body      # a == body - c  (max)   /   a == c - body (min)
+            dropped = False
+            if d.is_const():
+                cval = -d.const if kind == 'max' else d.const
+                for L in lits:
+                    if L.is_const() and ((kind == 'max' and cval <= L.const) or (kind == 'min' and cval >= L.const)):
+                        dropped = True
+            if not dropped:
+                keep.append((a, strict))
+        norm.append((P, body, tuple(keep)))
+    comps = norm
     if not comps:
         if not lits:
             return dflt if dflt is not None else Affine({'%s()' % kind: 1})
         return minmax_term(kind, lits)
     key = '%s{%s}' % (kind, '; '.join(
-        sorted(repr(x) for x in lits) + sorted('over %s: %r' % c for c in comps) +
+        sorted(repr(x) for x in lits) + sorted('over %s: %r%s' % (c[0], c[1], ''.join(
+            ' if %r %s 0' % (a, '>' if st else '>=') for a, st in c[2])) for c in comps) +
         (['default %r' % dflt] if dflt is not None else [])))
     FOLD_INFO[key] = (kind, lits, comps, dflt)
     return Affine({key: 1})
@@ -1576,15 +1596,33 @@ def fold_parts(canon, it, fr, env, d=0):
     if isinstance(it, (ast.ListComp, ast.GeneratorExp)) and len(it.generators) == 1:
         g = it.generators[0]
         P = canon.p(g.iter, fr) if hasattr(canon, 'p') else canon.c(g.iter, fr)
-        if g.ifs:
-            P += ''.join(' if ' + canon.p(c, fr) for c in g.ifs)
         pc = canon if isinstance(canon, ProvCanon) else _prov_twin(canon)
         pc._comp_bind(it.generators, fr, d, frozenset())
+        filt = []
         try:
             body = affine(pc, it.elt, fr, env, d + 1)
+            for c in g.ifs:
+                ok = False
+                if isinstance(c, ast.Compare) and len(c.ops) == 1 and isinstance(c.ops[0], (ast.Gt, ast.GtE, ast.Lt, ast.LtE)):
+                    l, r = affine(pc, c.left, fr, env, d + 1), affine(pc, c.comparators[0], fr, env, d + 1)
+                    if isinstance(c.ops[0], (ast.Lt, ast.LtE)):
+                        l, r = r, l
+                    filt.append((l - r, isinstance(c.ops[0], (ast.Gt, ast.Lt))))
+                    ok = True
+                if not ok:
+                    P += ' if ' + canon.p(c, fr)
         finally:
             pc._comp_env.pop()
-        return [], [(P, body)]
+        # the filtered list may be a second comprehension over the first: [w for w in waits if w > 0]
+        if isinstance(it.elt, ast.Name) and isinstance(g.target, ast.Name) and it.elt.id == g.target.id:
+            inner = fold_parts(canon, g.iter, fr, env, d + 1)
+            if inner is not None and not inner[0] and len(inner[1]) == 1:
+                P0, b0 = inner[1][0][0], inner[1][0][1]
+                f0 = list(inner[1][0][2]) if len(inner[1][0]) > 2 else []
+                # the filter speaks about the element, which is b0
+                f1 = [((a - body) + b0, st) for a, st in filt]
+                return [], [(P0, b0, tuple(f0 + f1))]
+        return [], [(P, body, tuple(filt))]
     if isinstance(it, ast.BinOp) and isinstance(it.op, ast.Add):
         a, b = fold_parts(canon, it.left, fr, env, d + 1), fold_parts(canon, it.right, fr, env, d + 1)
         if a is None or b is None:
